@@ -140,6 +140,21 @@ example : authHeaderParamLoop [b!" Signature=bad", b!"Signature=good "] [] = .ok
 example : firstOf (groupPairs [(b!"X-Amz-Date", b!"1"), (b!"a", b!"x"), (b!"X-Amz-Date", b!"2")]) b!"X-Amz-Date" = some b!"1" := by
   decide
 
+/-- An item of the Authorization header whose name — after ASCII trimming, which is all the parser
+does — is not `k` never changes what is selected for `k`: appending it leaves the selection as it
+was. In particular an item named like a parameter with a foreign byte attached (`\xA0Credential`) is
+not a repetition of that parameter. -/
+theorem other_items_irrelevant (ps : List Bytes) (item : Bytes) (m m' : List (Bytes × Bytes))
+    (k k' v : Bytes) (hitem : paramKV item = some (k', v)) (hne : k' ≠ k)
+    (h : authHeaderParamLoop ps [] = .ok m) (h' : authHeaderParamLoop (ps ++ [item]) [] = .ok m') :
+    assocGet m' k = assocGet m k := by
+  rw [last_param_wins ps m k h, last_param_wins (ps ++ [item]) m' k h', List.reverse_append,
+    List.reverse_singleton, List.singleton_append, List.findSome?_cons]
+  simp only [hitem, if_neg hne]
+
+example : paramKV ([0xA0] ++ b!"Credential=evil") = some ([0xA0] ++ b!"Credential", b!"evil") := by decide
+example : paramKV (b!"\tCredential=x ") = some (b!"Credential", b!"x") := by decide
+
 end SigV4.C19
 
 #print axioms SigV4.C19.firstOf_normalizeHeaders
@@ -151,3 +166,4 @@ end SigV4.C19
 #print axioms SigV4.C19.both_carriers_refused
 #print axioms SigV4.C19.both_carriers_refused_validate
 #print axioms SigV4.C19.no_carrier
+#print axioms SigV4.C19.other_items_irrelevant
